@@ -219,6 +219,9 @@ func (n *Tree[V]) delNode(path string, matcher ValueMatcher[V]) bool {
 
 		if newSize == 0 {
 			n.backtrackingEnabled = true
+			// the node may survive (if it has children). The names of the wildcards used by the removed
+			// values must not constrain the values added to that node in the future
+			n.wildcardKeys = nil
 		}
 
 		return oldSize != newSize
